@@ -54,13 +54,20 @@ def run_case(case):
         ctrl = mesh.controllers[0]
     except Exception as e:  # noqa
         obs['code'] = exc_code(e)
-        if exp['outcome'] == 'malformed':
+        if exp['outcome'] == 'ref-error':
+            from collada.common import DaeError
+            if not isinstance(e, DaeError):
+                fail('ref-level', case['fault'], 'a %s with a broken reference (%s) raises %r, not a DaeError'
+                     % (case['kind'], exp.get('why'), e))
+        elif exp['outcome'] == 'malformed':
             if not isinstance(e, DaeMalformedError):
                 fail('rejects', case['fault'], 'a %s controller (%s) is not rejected as DaeMalformedError but raises %r'
                      % (case['kind'], case['fault'], e))
         else:
             fail('accepts', type(e).__name__, 'a well-formed %s fails to load: %r' % (case['kind'], e))
         return {'obs': obs, 'fails': fails}
+    if exp['outcome'] == 'ref-error':
+        fail('ref-level', case['fault'], 'a %s with a broken reference (%s) is accepted' % (case['kind'], exp.get('why')))
     if exp['outcome'] == 'malformed':
         fail('rejects', case['fault'], 'a %s with fault "%s" (%s) is accepted' % (case['kind'], case['fault'], exp.get('why')))
 
@@ -93,7 +100,7 @@ def run_case(case):
                 fail('groups', 'offsets', 'joint_index/weight_index %r / %r, expected %r / %r'
                      % (view['joint_index'], view['weight_index'], exp['joint_index'], exp['weight_index']))
             nj, nw = len(skin.weight_joints), len(skin.weights)
-            if any(not (0 <= x < nj) for col in view['joint_index'] for x in col) or \
+            if any(not (-1 <= x < nj) for col in view['joint_index'] for x in col) or \
                     any(not (0 <= x < nw) for col in view['weight_index'] for x in col):
                 fail('in-range', 'accepted', 'accepted skin has an index outside its joint (%d) / weight (%d) source' % (nj, nw))
             if view['joint_matrices'] != exp['joint_matrices']:
